@@ -204,6 +204,22 @@ pub fn unit_ids() -> BoxedStrategy<Vec<String>> {
     (0..n).prop_map(|i| unit_table()[i].1.ids.clone()).boxed()
 }
 
+/// A non-finite Number that carries a unit, bare or as the only element / tag of a list or dict. Zinc has no
+/// spelling for it (so it is outside `GenCfg::wf`), Hayson has: `{"_kind":"number","val":"-INF","unit":"m"}`.
+pub fn nonfinite_with_unit() -> BoxedStrategy<RVal> {
+    let nf = prop::sample::select(vec![f64::NAN, f64::INFINITY, f64::NEG_INFINITY]);
+    (nf, unit_ids(), 0..3u8)
+        .prop_map(|(f, u, wrap)| {
+            let n = RVal::Num(f.to_bits(), Some(u));
+            match wrap {
+                0 => n,
+                1 => RVal::List(vec![RVal::Num(1f64.to_bits(), None), n]),
+                _ => RVal::Dict([("val".to_string(), n)].into_iter().collect()),
+            }
+        })
+        .boxed()
+}
+
 pub fn number(cfg: GenCfg) -> BoxedStrategy<RVal> {
     let nonfinite = if cfg.nan {
         // both signs of NaN: the sign bit of a NaN carries no meaning and must not turn it into -INF
